@@ -61,11 +61,22 @@ pub fn honest_fm(out: &mut Out, prop: &str, inst: &fmrun::Inst, kind: &RngKind, 
     let key = format!("{} rng={:?}", inst.describe(), kind);
     let mut rng = TestRng::new(kind.clone());
     tap::start();
+    fm::tap_start();
     let t0 = inst.transcript();
     let tid = t0.shadow_id;
     let stmt = inst.statement();
     let res = fmrun::Proof::prove_with_rng(&mut { t0 }, &stmt, &inst.witness(), &mut rng);
+    let prover_msm = fm::msm_inputs();
+    let _ = fm::tap_take();
     let recs = tap::take();
+    if tie {
+        if let Some((st, _dy, table)) = prover_msm.first() {
+            out.req(
+                format!("ascalars n={} m={} cap={} v={} p={}", inst.n, inst.m, inst.cap, nlist(&inst.values), nlist(&inst.promises.iter().map(|p| p.unwrap_or(0)).collect::<Vec<_>>())),
+                format!("static={} table={}", hlist(st), table),
+            );
+        }
+    }
     out.oracle(&format!("{}:prove-ok:fm", prop), res.is_ok(), &key, &format!("err={:?}", res.as_ref().err()));
     let proof = res.ok()?;
     let ch_p = fmx::chal_of(&recs, tid);
@@ -80,6 +91,7 @@ pub fn honest_fm(out: &mut Out, prop: &str, inst: &fmrun::Inst, kind: &RngKind, 
         tap::start();
         fm::tap_start();
         let r = fmrun::Proof::verify_batch(&mut [vt], std::slice::from_ref(&stmt), std::slice::from_ref(&proof), action);
+        let msm_in = fm::msm_inputs();
         let residuals = fm::tap_take();
         let vrecs = tap::take();
         out.oracle(&format!("{}:verify-ok:fm:{:?}", prop, action), r.is_ok(), &key, &format!("err={:?}", r.as_ref().err()));
@@ -103,6 +115,25 @@ pub fn honest_fm(out: &mut Out, prop: &str, inst: &fmrun::Inst, kind: &RngKind, 
                         format!("verify {} {} {} w={}", fmx::stmt_wire(inst, &pr, &stmt.commitments), parts.wire(), ch.wire(), w.first().map(hs).unwrap_or("00".into())),
                         format!("res={} verdict={} msms={}", fmx::vstr(&res), if r.is_ok() { "ok" } else { "err" }, residuals.len()),
                     );
+                    // scalar-level tie: the lists handed to the final multiscalar multiplication
+                    if let Some((st, dy, table)) = msm_in.last() {
+                        out.req(
+                            format!(
+                                "vscalars n={} m={} t={} cap={} p={} r1={} s1={} d1={} {} w={}",
+                                inst.n,
+                                inst.m,
+                                inst.t,
+                                inst.cap,
+                                nlist(&inst.promises.iter().map(|p| p.unwrap_or(0)).collect::<Vec<_>>()),
+                                hs(&parts.r1),
+                                hs(&parts.s1),
+                                hlist(&parts.d1),
+                                ch.wire(),
+                                w.first().map(hs).unwrap_or("00".into())
+                            ),
+                            format!("static={} dynamic={} table={}", hlist(st), hlist(dy), table),
+                        );
+                    }
                 }
             }
             chal_v = ch_v;
